@@ -50,6 +50,11 @@ theorem operand_powers :
     single `Is` method -/
 theorem public_errors_only_is : (errorMethods.filter (fun m => m.1 == "jmespath")).all (fun m => m.2.2 == "Is") = true := by decide
 
+/-- [C08] no error type of the evaluator has an `Unwrap` or `As` method either: the category `evaluateError` finds with
+    `errors.Is` is decided by the evaluator's own `Is` methods and never by an error a foreign value handed in (a failed
+    `MarshalJSON` inside `to_string`; FX29) -/
+theorem evaluator_errors_only_is : (errorMethods.filter (fun m => m.1 == "evaluator")).all (fun m => m.2.2 == "Is") = true := by decide
+
 /-- [C08] every `Is` method is the single comparison `target == <sentinel>` recorded in `isTable`: an error matches its
     one sentinel and nothing else under `errors.Is` -/
 theorem is_methods_single_comparison :
